@@ -2,11 +2,13 @@ module vh
 
 go 1.21
 
-require github.com/ostafen/clover/v2 v2.0.0
+require (
+	github.com/dgraph-io/badger/v4 v4.2.0
+	github.com/ostafen/clover/v2 v2.0.0
+)
 
 require (
 	github.com/cespare/xxhash/v2 v2.2.0 // indirect
-	github.com/dgraph-io/badger/v4 v4.2.0 // indirect
 	github.com/dgraph-io/ristretto v0.1.1 // indirect
 	github.com/dustin/go-humanize v1.0.1 // indirect
 	github.com/gofrs/uuid/v5 v5.0.0 // indirect
